@@ -265,6 +265,22 @@ pub fn run_edge(edge: &J, want_trace: bool) -> (Option<Viol>, Vec<J>) {
             Err(e) => return (Some(Viol { kind: "read", what: format!("reading the state after {} failed: {}", ev["op"], e), detail: json!({}) }), trace),
         }
     }
+    // which table streams exist in the container (a new table has none; an emptied one keeps it)
+    if let Some(pres) = edge["present"].as_array() {
+        let dirty = sess.snapshot().map(|(_, d)| d["fin"].as_bool().unwrap_or(false)).unwrap_or(false);
+        match sess.image(sess.is_open() && dirty) {
+            Ok(img) => {
+                let mut got: Vec<String> = img.tables.iter().filter(|t| t.stream_present).map(|t| t.name.clone()).collect();
+                let mut want_p: Vec<String> = pres.iter().map(crate::j::from_cps).collect();
+                got.sort();
+                want_p.sort();
+                if got != want_p {
+                    return (Some(Viol { kind: "bytes-decoder", what: format!("after {}: table streams present in the container {:?}, expected {:?}", ev["op"], got, want_p), detail: json!({}) }), trace);
+                }
+            }
+            Err(e) => return (Some(Viol { kind: "bytes-decoder", what: format!("after {}: independent decoder cannot read the medium: {}", ev["op"], e), detail: json!({}) }), trace),
+        }
+    }
     if edge["clean"].as_bool().unwrap_or(false) {
         // a clean point: the bytes on the medium right now must already hold everything
         if let Err((k, e)) = check_bytes(&sess, &want) {
